@@ -5,7 +5,7 @@ use crate::project::Project;
 use crate::util::{self, NdWriter};
 use serde_json::{json, Value};
 
-const PATHS: [&str; 8] = ["a.js", "src/a.js", "src/sub/b.js", "test/c.js", "src/x.ts", "lib/y.py", "src/w.mjsx", "README.md"];
+const PATHS: [&str; 9] = ["a.js", "src/a.js", "src/sub/b.js", "test/c.js", "src/x.ts", "src/p.view.ts", "lib/y.py", "src/w.mjsx", "README.md"];
 
 pub fn drive(vectors: &str, out: &str, thorough: bool, seed: u64) {
   let all = util::read_ndjson(vectors);
@@ -19,6 +19,8 @@ pub fn drive(vectors: &str, out: &str, thorough: bool, seed: u64) {
       "extra" => Some(json!({"languageGlobs": {"javascript": ["*.mjsx"]}})),
       // an extension that a built-in language (Python) owns is claimed for JavaScript
       "override" => Some(json!({"languageGlobs": {"javascript": ["*.py"]}})),
+      // a glob narrower than an extension: two files of one extension, two languages
+      "narrow" => Some(json!({"languageGlobs": {"tsx": ["*.view.ts"]}})),
       _ => None,
     };
     p.config(extra.as_ref());
